@@ -1,5 +1,5 @@
 """C10 — invalid parameter values are reported as errors and are never fatal."""
-import os, subprocess, json, resource, concurrent.futures
+import os, re, subprocess, json, resource, concurrent.futures
 import cvbuild, cvlib
 from cvlib import fbits, tok_val, esc
 from cvscen import inj_cv, cfg, pos, tf, num
@@ -79,11 +79,12 @@ def make_case(obj, key, val, seed_steps):
     return text
 
 
-def scenario(work, idx, text, rng):
+def scenario(work, idx, text, rng, via_script=False):
     prefix = os.path.join(work, "o%d" % idx)
     L = ["m.new %d" % NATOMS, "M.noclock", "m.opt prefix %s" % prefix, cfg(REF)]
     L += [pos(3, 0.0, 0.0, 0.3), pos(0, 0.0, 0.0, 0.1), tf(0, 0, 0, 0.5), "m.step", "m.bias href"]
-    L += [cfg(text)]
+    # the configuration reaches the module directly (read_config_string) or through the scripting interface's queue (`cv config`)
+    L += ["m.scriptq cv config " + esc(text)] if via_script else [cfg(text)]
     x = 0.1
     for s in range(8):
         x += rng.uniform(-0.4, 0.4)
@@ -297,10 +298,13 @@ def extra(rep, tier, rng):
         rest = [j for j in jobs if j not in core]
         rng.shuffle(rest)
         jobs = core + rest[:150]
+    # every fourth configuration of the sweep, and every configuration of the rejected list, arrives through `cv config`
+    nsweep = len(jobs)
+    jobs += [("reject%d" % i, "(whole configuration)", r[1].split("\n")[0]) for i, r in enumerate(REJECTS)]
     files = []
     for i, (obj, key, val) in enumerate(jobs):
-        text = make_case(obj, key, val, None)
-        L = scenario(work, i, text, rng.fork())
+        text = make_case(obj, key, val, None) if i < nsweep else REJECTS[i - nsweep][1]
+        L = scenario(work, i, text, rng.fork(), via_script=(i % 4 == 3 or i >= nsweep))
         f = os.path.join(work, "c%d.txt" % i)
         open(f, "w").write("\n".join(L) + "\n")
         files.append(f)
@@ -332,7 +336,7 @@ def extra(rep, tier, rng):
                     val.startswith("-") or val in ("2147483648", "4294967296", "1e308", "inf", "2305843009213693952", "9223372036854775808", "18446744073709551615")):
                 sig = "analysis window sizes (size_t) accept huge or negative values"
             rep.violation("%s: %s %s %s -> the host process: %s %s" % (what, obj, key, val or "(empty)", what, err.strip().splitlines()[-1:] if err else ""),
-                          open(f).read(), "fatal_%s_%s_%s" % (obj, key, (val or "empty").replace("-", "m").replace(".", "p")), found_input=True, signature=sig)
+                          open(f).read(), "fatal_" + re.sub(r"[^A-Za-z0-9]+", "_", "%s_%s_%s" % (obj, key, (val or "empty").replace("-", "m").replace(".", "p")))[:80], found_input=True, signature=sig)
             continue
         # the module stays usable and the reference bias is unaffected: energies of href identical to a run without the object
         e_ref_before = po.get((9, "e", 1))
